@@ -114,8 +114,10 @@ func addGarbleToHash(inputHash []byte) [sha256.Size]byte {
 	// We also need to add the selected options to the full version string,
 	// because all of them result in different output. We use spaces to
 	// separate the env vars and flags, to reduce the chances of collisions.
-	fmt.Fprintf(hasher, " GOGARBLE=%s", sharedCache.GOGARBLE)
+	// GOGARBLE is an arbitrary user string, so it goes last: if it were followed
+	// by the flags, GOGARBLE="foo, -tiny" would hash like GOGARBLE="foo," -tiny.
 	appendFlags(hasher, true)
+	fmt.Fprintf(hasher, " GOGARBLE=%s", sharedCache.GOGARBLE)
 	// addGarbleToHash returns the sum buffer, so we need a new copy.
 	// Otherwise the next use of the global sumBuffer would conflict.
 	var sumBuffer [sha256.Size]byte
